@@ -199,6 +199,7 @@ def check(chk):
                     chk.analysed(tagf)
     _memo_rule(chk, repo, tagf)
     _payload_marker(chk, repo)
+    _parameter_names_free(chk, repo)
     ecfg = tagf.cfg()
 
     # what each kind of value looks like on the line: decided on the string shapes when every path can be evaluated; the clauses bound to the
@@ -538,6 +539,42 @@ def _payload_marker(chk, repo):
     chk.ob("FRAME-1", "marker splits examined (%d)" % n, n >= 2, BS + ":1", nontrivial=False)
 
 
+def _parameter_names_free(chk, repo):
+    """NAMES-19: every parameter name can be sent.  The message's parameters travel as **kwargs through the senders (send, send_to_*) into the
+    encoder; a named parameter of a function on that route shadows the message parameter of the same name (TypeError: got multiple values -
+    the socket client logs it and drops the message).  The named parameters of those functions are disjoint from the message parameter
+    names the framework's own BCP code sends."""
+    ROUTE = ("send", "send_to_client", "send_to_clients", "send_to_all_clients", "send_to_clients_with_handler", "encode_command_string")
+    defs = {}
+    for rel, m in repo.modules.items():
+        if rel.startswith("mpf/core/bcp/"):
+            for f in m.all_funcs():
+                if f.name in ROUTE and f.node.args.kwarg is not None:
+                    defs.setdefault(f.name, []).append(f)
+    named_of = {nm: set().union(*[{a.arg for a in f.node.args.args + f.node.args.kwonlyargs} for f in fs]) for nm, fs in defs.items()}
+    used = {}
+    for rel, m in repo.modules.items():
+        if not rel.startswith("mpf/"):
+            continue
+        for f in m.all_funcs():
+            for c in f.calls():
+                nm = call_attr(c)
+                if nm in named_of and (nm != "send" or "bcp" in src(c.func).lower()):
+                    for k in c.keywords:
+                        if k.arg and k.arg not in named_of[nm]:
+                            used.setdefault(k.arg, (f, c))
+    n = 0
+    for nm, fs in sorted(defs.items()):
+        for f in fs:
+            n += 1
+            named = {a.arg for a in f.node.args.args + f.node.args.kwonlyargs if a.arg not in ("self", "cls")}
+            clash = sorted(named & set(used))
+            chk.ob("NAMES-19", "%s takes the message's parameters as **kwargs and names none of them itself" % f.qualname, not clash, f.where(),
+                   detail="named parameter(s) %s are also sent as message parameters (%s)" % (clash, ", ".join("%s:%d" % (used[c_][0].relpath, used[c_][1].lineno) for c_ in clash)),
+                   construct=f.ident, text="parameter name shadows a message parameter in " + f.name)
+    chk.ob("NAMES-19", "functions on the **kwargs route examined (%d), message parameter names seen: %d" % (n, len(used)), n >= 2 and len(used) >= 5, BS + ":1", nontrivial=False)
+
+
 def _memo_rule(chk, repo, tagf):
     """CACHE-1: nothing on the encoding path is memoised by argument value.  A cache keyed by `==` cannot tell True from 1
     from 1.0 (nor 0.0 from -0.0): whichever is encoded first decides the wire form -- and the decoded type -- of the others."""
@@ -623,6 +660,8 @@ def _frame_rules(chk, cn, f, cfg):
 def battery():
     from sa.battery import M
     return [
+        M("encoder's positional parameter named like a message parameter", BS, "def encode_command_string(bcp_command, **kwargs) -> str:", "def encode_command_string(cmd, **kwargs) -> str:", "NAMES-19",
+          also=[(BS, "    return str(urlunparse(('', '', bcp_command, '', kwarg_string, '')))", "    return str(urlunparse(('', '', cmd, '', kwarg_string, '')))")]),
         M("byte marker without its separator", BS, "BYTE_MARKER = b'&bytes='", "BYTE_MARKER = b'bytes='", "FRAME-1"),
         M("tag as prefix, None gets a body too", BS, "        value = quote(str(v), '')\n\n        if isinstance(v, bool):  # bool isinstance of int, so this goes first\n            value = 'bool:{}'.format(value)\n        elif isinstance(v, int):\n            value = 'int:{}'.format(value)\n        elif isinstance(v, float):\n            value = 'float:{}'.format(value)\n        elif v is None:\n            value = 'NoneType:'\n        else:  # cast anything else as a string\n            value = str(value)\n\n        kwarg_string += '{}={}&'.format(quote(k, ''),\n                                        value)", "        if isinstance(v, bool):\n            prefix = 'bool:'\n        elif isinstance(v, int):\n            prefix = 'int:'\n        elif isinstance(v, float):\n            prefix = 'float:'\n        elif v is None:\n            prefix = 'NoneType:'\n        else:\n            prefix = ''\n\n        kwarg_string += '{}={}{}&'.format(quote(k, ''), prefix, quote(str(v), ''))", ("LAYER-1", "TABLE-9")),
         M("twin: tag as prefix, None without a body", BS, "        value = quote(str(v), '')\n\n        if isinstance(v, bool):  # bool isinstance of int, so this goes first\n            value = 'bool:{}'.format(value)\n        elif isinstance(v, int):\n            value = 'int:{}'.format(value)\n        elif isinstance(v, float):\n            value = 'float:{}'.format(value)\n        elif v is None:\n            value = 'NoneType:'\n        else:  # cast anything else as a string\n            value = str(value)\n\n        kwarg_string += '{}={}&'.format(quote(k, ''),\n                                        value)", "        if isinstance(v, bool):\n            prefix = 'bool:'\n        elif isinstance(v, int):\n            prefix = 'int:'\n        elif isinstance(v, float):\n            prefix = 'float:'\n        elif v is None:\n            prefix = 'NoneType:'\n        else:\n            prefix = ''\n\n        kwarg_string += '{}={}{}&'.format(quote(k, ''), prefix, '' if v is None else quote(str(v), ''))", None),
